@@ -132,7 +132,22 @@ struct Th {
     bracket: u32,
     pending: u32,
     active: bool,
+    /// store-buffer model: this thread's stores that are not yet visible to the others, oldest first
+    sbuf: Vec<SbEntry>,
 }
+
+#[derive(Clone, Copy)]
+struct SbEntry {
+    addr: usize,
+    size: u8,
+    bits: u64,
+    age: u32,
+}
+
+/// a deferred store becomes visible at the latest when its thread reaches this many further scheduling points
+const SB_MAX_AGE: u32 = 8;
+/// deferred stores per thread
+const SB_CAP: usize = 2;
 
 #[derive(Clone)]
 pub struct EngineCfg {
@@ -152,6 +167,10 @@ pub struct EngineCfg {
     pub post_points: bool,
     /// offer a spurious return of `std::thread::park` (legal for std) as a costed alternative
     pub spurious: bool,
+    /// store-buffer model (x86-TSO restricted to the shim atomics): a store that is not SeqCst may be held back
+    /// (costed alternative) while the thread goes on, until its next read-modify-write, SeqCst store or fence, cell
+    /// write, lock / blocking operation, or SB_MAX_AGE further points; the thread's own loads see the held value
+    pub tso: bool,
 }
 
 impl Default for EngineCfg {
@@ -165,6 +184,7 @@ impl Default for EngineCfg {
             fair: 50,
             post_points: false,
             spurious: false,
+            tso: false,
         }
     }
 }
@@ -202,6 +222,9 @@ pub struct State {
     site_names: HashMap<u32, (&'static str, u32)>,
     panics: Vec<String>,
     t2_used: bool,
+    tso_used: bool,
+    dead_objs: Vec<(&'static str, usize)>,
+    obj_size: Vec<(usize, usize)>,
     spurious_used: bool,
 }
 
@@ -245,6 +268,7 @@ impl Engine {
             bracket: 0,
             pending: 0,
             active: false,
+            sbuf: Vec::new(),
         };
         TID.with(|t| t.set(0));
         let e = Box::leak(Box::new(Engine {
@@ -274,6 +298,9 @@ impl Engine {
                 site_names: HashMap::new(),
                 panics: Vec::new(),
                 t2_used: false,
+                tso_used: false,
+                dead_objs: Vec::new(),
+                obj_size: Vec::new(),
                 spurious_used: false,
             }),
             shared,
@@ -361,6 +388,9 @@ impl Engine {
     pub fn t2_used(&self) -> bool {
         self.lock().t2_used
     }
+    pub fn tso_used(&self) -> bool {
+        self.lock().tso_used
+    }
 
     /// number of allocations served from the recycle lists so far
     pub fn panics(&self) -> Vec<String> {
@@ -384,6 +414,7 @@ impl Engine {
                 bracket: 0,
                 pending: 0,
                 active: false,
+                sbuf: Vec::new(),
             });
             st.th.len() - 1
         };
@@ -840,6 +871,10 @@ impl Engine {
 
     /// `me` is at a scheduling point (enabled or blocked), returns when `me` runs again
     fn resched<'a>(&'a self, mut st: MutexGuard<'a, State>, me: usize) {
+        if st.cfg.tso && st.th[me].blocked.is_some() {
+            // every blocking operation drains the store buffer
+            Self::flush(&mut st, me);
+        }
         st.steps += 1;
         if st.steps - st.steps_at_begin > st.cfg.horizon {
             self.finish_locked(st, ST_LIVELOCK, "livelock", "livelock: step horizon exceeded");
@@ -856,6 +891,59 @@ impl Engine {
         let parker = st.th[me].parker.clone();
         drop(st);
         self.park_self(&parker);
+    }
+
+    /// store-buffer model: make the deferred stores of `t` visible, oldest first
+    fn flush(st: &mut State, t: usize) {
+        if st.th[t].sbuf.is_empty() {
+            return;
+        }
+        let buf = std::mem::take(&mut st.th[t].sbuf);
+        for e in buf {
+            if crate::alloc::quarantined(e.addr) {
+                // the location was freed meanwhile (the memory stays mapped): nobody can observe the store any more
+                continue;
+            }
+            unsafe {
+                match e.size {
+                    1 => (*(e.addr as *const std::sync::atomic::AtomicU8)).store(e.bits as u8, Ordering::SeqCst),
+                    2 => (*(e.addr as *const std::sync::atomic::AtomicU16)).store(e.bits as u16, Ordering::SeqCst),
+                    4 => (*(e.addr as *const std::sync::atomic::AtomicU32)).store(e.bits as u32, Ordering::SeqCst),
+                    _ => (*(e.addr as *const std::sync::atomic::AtomicU64)).store(e.bits, Ordering::SeqCst),
+                }
+            }
+        }
+    }
+
+    /// a choice that is not a scheduling decision: `n` alternatives, 0 is the default, anything else costs a deviation
+    fn extra_choice<'a>(&'a self, mut st: MutexGuard<'a, State>, me: usize, n: usize, tag: u64) -> (MutexGuard<'a, State>, usize) {
+        let i = st.nchoice;
+        if i >= MAX_CHOICES {
+            self.finish_locked(st, ST_TOOMANY, "too_many_choice_points", "too many choice points in one execution");
+        }
+        let pick = if st.dev_pos < st.devs.len() && st.devs[st.dev_pos].0 as usize == i {
+            st.dev_pos += 1;
+            st.devs[st.dev_pos - 1].1 as usize
+        } else {
+            0
+        };
+        let fp = fnv(fnv(0x9e3779b97f4a7c15, me as u64), tag);
+        st.fp_roll = fnv(st.fp_roll, fp);
+        unsafe {
+            let s = &mut *self.shared;
+            s.alts[i] = n as u8;
+            s.chosen[i] = pick as u8;
+            s.fp[i] = st.fp_roll;
+            s.n_choices = (i + 1) as u32;
+        }
+        st.nchoice += 1;
+        if pick >= n {
+            self.finish_locked(st, ST_NONDET, "nondeterminism", "replay divergence: recorded choice is out of range");
+        }
+        if pick != 0 && st.dev_pos == st.devs.len() && st.expect_fp != 0 && st.fp_roll != st.expect_fp {
+            self.finish_locked(st, ST_NONDET, "nondeterminism", "replay divergence: fingerprint of the replayed prefix differs from the recorded one");
+        }
+        (st, pick)
     }
 
     fn record(&self, st: &mut State, me: usize, op: Op, addr: usize, loc: &'static Location<'static>) -> u32 {
@@ -899,6 +987,17 @@ impl Hooks for Engine {
         }
         let mut st = self.lock();
         self.record(&mut st, me, op, addr, loc);
+        if st.cfg.tso && !st.th[me].sbuf.is_empty() {
+            // read-modify-writes (locked instructions), fences and plain writes do not overtake held stores;
+            // stores are handled in defer_store (FIFO), loads may overtake
+            let drain = !matches!(op, Op::Load | Op::Store | Op::CellRead | Op::PlainRead);
+            for e in st.th[me].sbuf.iter_mut() {
+                e.age += 1;
+            }
+            if drain || st.th[me].sbuf.iter().any(|e| e.age > SB_MAX_AGE) {
+                Self::flush(&mut st, me);
+            }
+        }
         if st.branching && crate::alloc::quarantined(addr) {
             // the operation that is about to execute touches memory that has been freed
             let f = loc.file();
@@ -914,7 +1013,20 @@ impl Hooks for Engine {
         if st.cfg.coarse && st.th[me].bracket > 0 {
             return;
         }
+        let branching = st.branching;
         self.resched(st, me);
+        // the operation executes now: others may have run since the first look
+        if branching && crate::alloc::quarantined(addr) {
+            let st = self.lock();
+            let f = loc.file();
+            let rel = match f.rfind("/may_queue/src/") {
+                Some(i) => &f[i + 1..],
+                None => f.rfind("/src/").map(|i| &f[i + 1..]).unwrap_or(f),
+            };
+            let clause = format!("use_after_free@{}", rel);
+            let msg = format!("use after free: {:?} at {}:{} accesses {:#x}, which was freed while this thread was suspended right in front of the operation", op, rel, loc.line(), addr);
+            self.finish_locked(st, ST_FAIL, &clause, &msg);
+        }
     }
 
     fn cell(&self, op: Op, addr: usize, loc: &'static Location<'static>) {
@@ -941,6 +1053,49 @@ impl Hooks for Engine {
         self.lock().now
     }
 
+    fn defer_store(&self, addr: usize, size: u8, bits: u64) -> bool {
+        let me = me();
+        if me == usize::MAX {
+            return false;
+        }
+        let mut st = self.lock();
+        if !st.cfg.tso {
+            return false;
+        }
+        if !st.branching || st.th[me].sbuf.len() >= SB_CAP {
+            Self::flush(&mut st, me);
+            return false;
+        }
+        let (mut st, pick) = self.extra_choice(st, me, 2, 0x7350);
+        if pick == 1 {
+            st.th[me].sbuf.push(SbEntry { addr, size, bits, age: 0 });
+            st.tso_used = true;
+            true
+        } else {
+            // stores leave the buffer in order
+            Self::flush(&mut st, me);
+            false
+        }
+    }
+
+    fn forward_load(&self, addr: usize) -> Option<u64> {
+        let me = me();
+        if me == usize::MAX {
+            return None;
+        }
+        let st = self.lock();
+        st.th[me].sbuf.iter().rev().find(|e| e.addr == addr).map(|e| e.bits)
+    }
+
+    fn fence(&self) {
+        let me = me();
+        if me == usize::MAX {
+            return;
+        }
+        let mut st = self.lock();
+        Self::flush(&mut st, me);
+    }
+
     fn thread_create(&self) -> usize {
         let mut st = self.lock();
         let n = st.th.len();
@@ -957,6 +1112,7 @@ impl Hooks for Engine {
             bracket: 0,
             pending: 0,
             active: false,
+            sbuf: Vec::new(),
         });
         n
     }
@@ -980,6 +1136,7 @@ impl Hooks for Engine {
             self.finish_locked(st, ST_PANIC, "unexpected_panic", &format!("thread {} panicked: {}", name, last));
         }
         st.th[me].finished = true;
+        Self::flush(&mut st, me);
         st.steps += 1;
         let (mut st, next) = self.choose(st, me);
         st.run_len = 0;
@@ -1005,7 +1162,8 @@ impl Hooks for Engine {
         if me == usize::MAX {
             return;
         }
-        let st = self.lock();
+        let mut st = self.lock();
+        Self::flush(&mut st, me);
         self.resched(st, me);
         let mut st = self.lock();
         if let Some(t) = st.th.iter().position(|t| t.std_id == Some(id)) {
@@ -1058,6 +1216,7 @@ impl Hooks for Engine {
             return;
         }
         let mut st = Engine::lock(self);
+        Self::flush(&mut st, me);
         st.locks.remove(&addr);
     }
 
@@ -1161,6 +1320,35 @@ impl Hooks for Engine {
         let mut st = Engine::lock(self);
         if st.labels.len() < 4096 {
             st.labels.push((me, s, arg));
+        }
+        // lifetime witness for objects that live on a stack (the quarantine allocator cannot see them): the code reports
+        // "<x>.created" / "<x>.dropped" with the object's address and marks later uses of the object with "<x>.<...>use_after..."
+        if st.branching {
+            if let Some(kind) = s.strip_suffix(".dropped") {
+                st.dead_objs.push((kind, arg));
+                let size = st.obj_size.iter().rev().find(|o| o.0 == arg).map(|o| o.1).unwrap_or(1);
+                crate::alloc::mark_dead(arg, size);
+            } else if let Some(kind) = s.strip_suffix(".created") {
+                st.dead_objs.retain(|d| !(d.0 == kind && d.1 == arg));
+                st.obj_size.push((arg, 1));
+                crate::alloc::unmark_dead(arg);
+            } else if s.ends_with(".size") {
+                // belongs to the ".created" label right in front of it
+                if let Some(o) = st.obj_size.last_mut() {
+                    o.1 = arg;
+                }
+            } else if s.contains(".use_after_") {
+                // the use that follows is a scheduling point of its own, but by then it is too late to look:
+                // let the others run here, then check
+                self.resched(st, me);
+                st = Engine::lock(self);
+                let kind = s.split('.').next().unwrap_or("");
+                if st.dead_objs.iter().any(|d| d.0 == kind && d.1 == arg) {
+                    let clause = format!("use_after_free@{}", kind);
+                    let msg = format!("use after free: at label {} the {} at {:#x} is used although it has been dropped", s, kind, arg);
+                    self.finish_locked(st, ST_FAIL, &clause, &msg);
+                }
+            }
         }
         unsafe {
             let sh = &mut *self.shared;
